@@ -149,6 +149,8 @@ impl Database {
     }
 
     fn send_message_to_arbiter_client(&self, message: String) {
+        #[cfg(nun_verif)]
+        crate::verif::yield_point("send_message_to_arbiter_client.watchers.read");
         let watchers = self.watchers.map.read().unwrap();
         match watchers.get(&String::from(CONFLICTS_KEY)) {
             Some(senders) => {
@@ -172,6 +174,8 @@ impl Database {
     }
 
     pub fn has_arbiter_connected(&self) -> bool {
+        #[cfg(nun_verif)]
+        crate::verif::yield_point("has_arbiter_connected.watchers.read");
         let watchers = self.watchers.map.read().unwrap();
         watchers.contains_key(CONFLICTS_KEY)
     }
